@@ -1,1 +1,347 @@
-(* placeholder: proofs are being written *)
+(* Proofs for C02: the mass cache invariant of the composition register machine, and the
+   exact-arithmetic laws of the mass (sum form, order independence, additivity, linearity). *)
+From Coq Require Import List ZArith NArith Bool Arith String Permutation Lia Field Ring Field_theory Ring_theory.
+From CE Require Import Num OField Str TableTypes TableModel Comp ESpec CompOps CompSpec.
+Import ListNotations.
+Local Close Scope Z_scope.
+
+(* ------------------------------------------------------------------------------------------ *)
+(* Keys: the boolean comparison decides Leibniz equality.                                       *)
+Lemma str_eqb_eq : forall a b : str, str_eqb a b = true -> a = b.
+Proof.
+  intros a b. unfold str_eqb. destruct (list_eq_dec N.eq_dec a b) as [E|E].
+  - intros _. exact E.
+  - intros H. discriminate H.
+Qed.
+
+Lemma key_eqb_eq : forall a b : key, key_eqb a b = true -> a = b.
+Proof.
+  intros [a1 a2] [b1 b2]. unfold key_eqb. cbn [fst snd]. intros H.
+  apply andb_true_iff in H. destruct H as [H1 H2].
+  apply str_eqb_eq in H1. apply N.eqb_eq in H2. subst. reflexivity.
+Qed.
+
+(* ------------------------------------------------------------------------------------------ *)
+(* The cache invariant: holds for every numeric interpretation and every iteration order.       *)
+Section Inv.
+  Context {F : Type} (N : Num F).
+  Variable tbl : list (string * elem).
+  Variable shuffle : ents -> ents.
+  Notation comp := (comp F).
+  Notation reg := (reg (F:=F)).
+  Notation dflt := (mkReg FVecDirect (empty_comp (F:=F))).
+
+  Lemma cache_ok_none : forall l, cache_ok N tbl (mkComp l None).
+  Proof. intros l. unfold cache_ok. cbn [c_cache]. exact I. Qed.
+
+  Lemma cache_ok_dirty : forall f l, cache_ok N tbl (dirty shuffle f l).
+  Proof. intros f l. unfold dirty. apply cache_ok_none. Qed.
+
+  Lemma cache_ok_empty : cache_ok N tbl empty_comp.
+  Proof. unfold empty_comp. apply cache_ok_none. Qed.
+
+  Lemma cache_ok_fmass : forall a : comp,
+    cache_ok N tbl a -> cache_ok N tbl (fst (c_fmass N tbl a)).
+  Proof.
+    intros a Ha. unfold c_fmass.
+    destruct (c_cache a) as [v|] eqn:Ec.
+    - cbn [fst]. exact Ha.
+    - destruct (calc_mass N tbl (c_ents a)) as [v|] eqn:Em.
+      + cbn [fst]. unfold cache_ok. cbn [c_cache c_ents]. exact Em.
+      + cbn [fst]. exact Ha.
+  Qed.
+
+  Lemma cache_ok_bin : forall f g (a b : comp),
+    cache_ok N tbl a -> cache_ok N tbl (bin shuffle f g a b).
+  Proof.
+    intros f g a b Ha. unfold bin. destruct (c_ents b) as [|x r].
+    - exact Ha.
+    - apply cache_ok_dirty.
+  Qed.
+
+  (* every operation returns a comp with an empty cache, one of its inputs, or fmass of its input *)
+  Lemma apply_cache_ok : forall f o (a b : comp),
+    cache_ok N tbl a -> cache_ok N tbl b ->
+    cache_ok N tbl (fst (apply N tbl shuffle f o a b)).
+  Proof.
+    intros f o a b Ha Hb.
+    destruct o; cbn [apply];
+      repeat (match goal with
+              | |- cache_ok _ _ (fst (match ?x with _ => _ end)) => destruct x
+              end);
+      cbn [fst];
+      first [ exact Ha | exact Hb | apply cache_ok_none | apply cache_ok_dirty
+            | apply cache_ok_bin; exact Ha | apply cache_ok_fmass; exact Ha ].
+  Qed.
+
+  Lemma In_set_nth : forall (A : Type) n (x : A) l y,
+    In y (set_nth n x l) -> y = x \/ In y l.
+  Proof.
+    intros A n x l. revert n. induction l as [|z r IH]; intros n y H.
+    - destruct n; cbn [set_nth] in H; destruct H.
+    - destruct n as [|n'].
+      + cbn [set_nth] in H. destruct H as [H|H].
+        * left. symmetry. exact H.
+        * right. right. exact H.
+      + cbn [set_nth] in H. destruct H as [H|H].
+        * right. left. exact H.
+        * destruct (IH n' y H) as [E|E]; [left; exact E|right; right; exact E].
+  Qed.
+
+  Lemma length_set_nth : forall (A : Type) n (x : A) l, List.length (set_nth n x l) = List.length l.
+  Proof.
+    intros A n x l. revert n. induction l as [|z r IH]; intros n.
+    - destruct n; reflexivity.
+    - destruct n as [|n']; cbn [set_nth List.length]; [reflexivity|rewrite IH; reflexivity].
+  Qed.
+
+  Lemma nth_cache_ok : forall regs, regs_ok N tbl regs ->
+    forall n, cache_ok N tbl (r_comp (nth n regs dflt)).
+  Proof.
+    intros regs Hok n. destruct (nth_in_or_default n regs dflt) as [H|H].
+    - apply Hok. exact H.
+    - rewrite H. cbn [r_comp]. apply cache_ok_empty.
+  Qed.
+
+  Lemma step_inv : forall regs ro,
+    regs_ok N tbl regs -> regs_ok N tbl (fst (step N tbl shuffle regs ro)).
+  Proof.
+    intros regs [r o] Hok.
+    assert (Ha := nth_cache_ok regs Hok r).
+    destruct o; cbv beta iota zeta delta [step operand];
+      (match goal with
+       | |- context [apply N tbl shuffle ?f ?o ?a ?b] =>
+           assert (Hc : cache_ok N tbl (fst (apply N tbl shuffle f o a b)))
+             by (apply apply_cache_ok;
+                 [exact Ha | first [apply cache_ok_empty | apply nth_cache_ok; exact Hok]]);
+           destruct (apply N tbl shuffle f o a b) as [c out]
+       end);
+      cbn [fst] in Hc |- *;
+      intros x Hx; apply In_set_nth in Hx;
+      (destruct Hx as [Hx|Hx];
+       [rewrite Hx; cbn [r_comp]; exact Hc | apply Hok; exact Hx]).
+  Qed.
+
+  Lemma run_ops_ok : forall ops regs,
+    regs_ok N tbl regs -> regs_ok N tbl (run_ops N tbl shuffle regs ops).
+  Proof.
+    intros ops. unfold run_ops. induction ops as [|ro ops IH]; intros regs Hok.
+    - cbn [fold_left]. exact Hok.
+    - cbn [fold_left]. apply IH. apply step_inv. exact Hok.
+  Qed.
+
+  Lemma init_regs_ok : forall f n, regs_ok N tbl (init_regs f n).
+  Proof.
+    intros f n r Hr. unfold init_regs in Hr. apply repeat_spec in Hr. rewrite Hr.
+    cbn [r_comp]. apply cache_ok_empty.
+  Qed.
+
+  Lemma cache_ok_coherent : forall c : comp, cache_ok N tbl c ->
+    c_mass N tbl c = calc_mass N tbl (c_ents c)
+    /\ snd (c_fmass N tbl c) = calc_mass N tbl (c_ents c)
+    /\ cache_ok N tbl (fst (c_fmass N tbl c)).
+  Proof.
+    intros c Hc. split; [|split].
+    - unfold c_mass. unfold cache_ok in Hc. destruct (c_cache c) as [v|].
+      + symmetry. exact Hc.
+      + reflexivity.
+    - unfold c_fmass. unfold cache_ok in Hc. destruct (c_cache c) as [v|].
+      + cbn [snd]. symmetry. exact Hc.
+      + destruct (calc_mass N tbl (c_ents c)) as [v|]; reflexivity.
+    - apply cache_ok_fmass. exact Hc.
+  Qed.
+
+  Lemma mass_coherent : forall f n ops r,
+    In r (run_ops N tbl shuffle (init_regs f n) ops) ->
+    c_mass N tbl (r_comp r) = calc_mass N tbl (c_ents (r_comp r))
+    /\ snd (c_fmass N tbl (r_comp r)) = calc_mass N tbl (c_ents (r_comp r))
+    /\ cache_ok N tbl (fst (c_fmass N tbl (r_comp r))).
+  Proof.
+    intros f n ops r Hr. apply cache_ok_coherent.
+    apply (run_ops_ok ops (init_regs f n) (init_regs_ok f n)). exact Hr.
+  Qed.
+End Inv.
+
+
+(* ------------------------------------------------------------------------------------------ *)
+(* Exact arithmetic: the mass is the sum over entries of count * mass(key).                     *)
+Section Exact.
+  Context {F : Type} (N : Num F).
+  Variable tbl : list (string * elem).
+  Hypothesis OF : OField N.
+
+  Add Field FfComp : (of_field N OF).
+
+  Lemma keys_ok_cons : forall k c r,
+    keys_ok N tbl ((k, c) :: r) = key_ok N tbl k && keys_ok N tbl r.
+  Proof. intros k c r. reflexivity. Qed.
+
+  Lemma key_ok_km : forall k, key_ok N tbl k = true -> key_mass N tbl k = Some (km N tbl k).
+  Proof.
+    intros k H. unfold key_ok in H. unfold km.
+    destruct (key_mass N tbl k) as [m|]; [reflexivity|discriminate H].
+  Qed.
+
+  Lemma calc_mass_from_sum : forall l tot,
+    keys_ok N tbl l = true ->
+    calc_mass_from N tbl l tot = Some (add N tot (mass_sum N tbl l)).
+  Proof.
+    intros l. induction l as [|[k c] r IH]; intros tot H.
+    - cbn [calc_mass_from mass_sum]. f_equal. ring.
+    - rewrite keys_ok_cons in H. apply andb_true_iff in H. destruct H as [Hk Hr].
+      cbn [calc_mass_from mass_sum]. rewrite (key_ok_km k Hk).
+      rewrite (IH _ Hr). rewrite (of_fma N OF). f_equal. ring.
+  Qed.
+
+  Lemma mass_is_sum : forall l,
+    keys_ok N tbl l = true -> calc_mass N tbl l = Some (mass_sum N tbl l).
+  Proof.
+    intros l H. unfold calc_mass. rewrite (calc_mass_from_sum l (zero N) H). f_equal. ring.
+  Qed.
+
+  Lemma mass_sum_app : forall l l',
+    mass_sum N tbl (l ++ l') = add N (mass_sum N tbl l) (mass_sum N tbl l').
+  Proof.
+    intros l l'. induction l as [|[k c] r IH].
+    - cbn [app mass_sum]. ring.
+    - cbn [app mass_sum]. rewrite IH. ring.
+  Qed.
+
+  Lemma mass_perm : forall l l',
+    Permutation l l' -> mass_sum N tbl l = mass_sum N tbl l'.
+  Proof.
+    intros l l' P. induction P as [|[k c] l l' P IH|[k c] [k' c'] l|l l' l'' P1 IH1 P2 IH2].
+    - reflexivity.
+    - cbn [mass_sum]. rewrite IH. reflexivity.
+    - cbn [mass_sum]. ring.
+    - rewrite IH1. exact IH2.
+  Qed.
+
+  (* set replaces the count of the first entry for k, or appends (k, n) *)
+  Lemma mass_sum_set : forall k n l,
+    mass_sum N tbl (e_set k n l)
+    = add N (mass_sum N tbl l) (mul N (km N tbl k) (sub N (of_Z N n) (of_Z N (e_get k l)))).
+  Proof.
+    intros k n l. induction l as [|[k' v] r IH].
+    - cbn [e_set e_get mass_sum]. rewrite (of_Z_0 N OF). ring.
+    - cbn [e_set e_get]. destruct (key_eqb k k') eqn:E.
+      + apply key_eqb_eq in E. subst k'. cbn [mass_sum]. ring.
+      + cbn [mass_sum]. rewrite IH. ring.
+  Qed.
+
+  Lemma mass_sum_inc : forall k n l,
+    mass_sum N tbl (e_inc k n l) = add N (mass_sum N tbl l) (mul N (km N tbl k) (of_Z N n)).
+  Proof.
+    intros k n l. unfold e_inc. rewrite mass_sum_set. rewrite (of_Z_add N OF). ring.
+  Qed.
+
+  Lemma mass_sum_add : forall b a,
+    mass_sum N tbl (e_add a b) = add N (mass_sum N tbl a) (mass_sum N tbl b).
+  Proof.
+    unfold e_add. intros b. induction b as [|[k v] r IH]; intros a.
+    - cbn [fold_left mass_sum]. ring.
+    - cbn [fold_left fst snd mass_sum]. rewrite IH. rewrite mass_sum_inc. ring.
+  Qed.
+
+  Lemma mass_sum_sub : forall b a,
+    mass_sum N tbl (e_sub a b) = sub N (mass_sum N tbl a) (mass_sum N tbl b).
+  Proof.
+    unfold e_sub. intros b. induction b as [|[k v] r IH]; intros a.
+    - cbn [fold_left mass_sum]. ring.
+    - cbn [fold_left fst snd mass_sum]. rewrite IH. rewrite mass_sum_inc.
+      rewrite (of_Z_opp N OF). ring.
+  Qed.
+
+  Lemma mass_additive : forall a b,
+    mass_sum N tbl (e_add a b) = add N (mass_sum N tbl a) (mass_sum N tbl b)
+    /\ mass_sum N tbl (e_sub a b) = sub N (mass_sum N tbl a) (mass_sum N tbl b).
+  Proof. intros a b. split; [apply mass_sum_add|apply mass_sum_sub]. Qed.
+
+  Lemma mass_linear : forall a n,
+    mass_sum N tbl (e_mul a n) = mul N (of_Z N n) (mass_sum N tbl a).
+  Proof.
+    unfold e_mul. intros a n. induction a as [|[k v] r IH].
+    - cbn [map mass_sum]. ring.
+    - cbn [map fst snd mass_sum]. rewrite IH. rewrite (of_Z_mul N OF). ring.
+  Qed.
+
+  (* corollaries for the other entry-store operations *)
+  Lemma mass_neg : forall a, mass_sum N tbl (e_neg a) = opp N (mass_sum N tbl a).
+  Proof.
+    intros a. unfold e_neg. rewrite mass_linear.
+    change (-1)%Z with (- (1))%Z. rewrite (of_Z_opp N OF), (of_Z_1 N OF). ring.
+  Qed.
+
+  Lemma mass_collect : forall l, mass_sum N tbl (e_collect l) = mass_sum N tbl l.
+  Proof. intros l. unfold e_collect. rewrite mass_sum_add. cbn [mass_sum]. ring. Qed.
+End Exact.
+
+
+(* ------------------------------------------------------------------------------------------ *)
+(* Non-vacuity on the regenerated table over the canonical rationals: a history that fills the  *)
+(* cache, mutates through three different paths and fills it again.                             *)
+From CE Require Import NumQc OFieldQc Table.
+
+Lemma C02_example :
+  OField NumQc /\
+  let T := build_table table_src in
+  let H := (codes "H", 0%N) in let O := (codes "O", 0%N) in
+  let regs := run_ops NumQc T (fun l => l) (init_regs FMapDirect 2%nat)
+                [(0%nat, OSet H 2%Z); (0%nat, OSet O 1%Z); (0%nat, OFmass); (0%nat, OMulAssign 2%Z);
+                 (1%nat, OClone 0%nat); (1%nat, OFmass); (1%nat, OAddAssign 0%nat)] in
+  regs_ok NumQc T regs /\ List.length regs = 2%nat
+  /\ c_mass NumQc T (r_comp (nth 1%nat regs (mkReg FMapDirect (empty_comp (F:=Qcanon.Qc)))))
+     = Some (mass_sum NumQc T [(H, 8%Z); (O, 4%Z)]).
+Proof.
+  split; [exact NumQc_OField|].
+  intros T H O regs.
+  assert (E : regs = [mkReg FMapDirect (mkComp [(H, 4%Z); (O, 2%Z)] None);
+                      mkReg FMapDirect (mkComp [(H, 8%Z); (O, 4%Z)] None)]).
+  { vm_compute. reflexivity. }
+  clearbody regs. subst regs.
+  split; [|split].
+  - intros r [Hr|[Hr|[]]]; rewrite <- Hr; cbn [r_comp]; apply cache_ok_none.
+  - reflexivity.
+  - cbn [nth r_comp]. unfold c_mass. cbn [c_cache c_ents].
+    apply (mass_is_sum NumQc T NumQc_OField).
+    vm_compute. reflexivity.
+Qed.
+
+(* the same history stopped after the second fmass: register 1 then holds a populated cache, and it is
+   the exact mass of its (mutated) contents -- the invariant is exercised on a Some, not only on None *)
+Lemma C02_example_cache_filled :
+  let T := build_table table_src in
+  let H := (codes "H", 0%N) in let O := (codes "O", 0%N) in
+  let regs := run_ops NumQc T (fun l => l) (init_regs FMapDirect 2%nat)
+                [(0%nat, OSet H 2%Z); (0%nat, OSet O 1%Z); (0%nat, OFmass); (0%nat, OMulAssign 2%Z);
+                 (1%nat, OClone 0%nat); (1%nat, OFmass)] in
+  let c := r_comp (nth 1%nat regs (mkReg FMapDirect (empty_comp (F:=Qcanon.Qc)))) in
+  c_ents c = [(H, 4%Z); (O, 2%Z)]
+  /\ c_cache c = Some (mass_sum NumQc T [(H, 4%Z); (O, 2%Z)])
+  /\ mass_sum NumQc T [(H, 4%Z); (O, 2%Z)] <> zero NumQc.
+Proof.
+  intros T H O regs c.
+  assert (Hm : calc_mass NumQc T [(H, 4%Z); (O, 2%Z)] = Some (mass_sum NumQc T [(H, 4%Z); (O, 2%Z)])).
+  { apply (mass_is_sum NumQc T NumQc_OField). vm_compute. reflexivity. }
+  assert (E : regs = fst (step NumQc T (fun l => l)
+                            [mkReg FMapDirect (mkComp [(H, 4%Z); (O, 2%Z)] None);
+                             mkReg FMapDirect (mkComp [(H, 4%Z); (O, 2%Z)] None)] (1%nat, OFmass))).
+  { unfold regs, run_ops.
+    change [(0%nat, OSet H 2%Z); (0%nat, OSet O 1%Z); (0%nat, OFmass); (0%nat, OMulAssign 2%Z);
+            (1%nat, OClone 0%nat); (1%nat, OFmass)]
+      with ([(0%nat, OSet H 2%Z); (0%nat, OSet O 1%Z); (0%nat, OFmass); (0%nat, OMulAssign 2%Z);
+             (1%nat, OClone 0%nat)] ++ [(1%nat, OFmass)])%list.
+    rewrite fold_left_app. cbn [fold_left].
+    apply (f_equal (fun x => fst (step NumQc T (fun l => l) x (1%nat, OFmass)))). vm_compute. reflexivity. }
+  assert (Ec : c = mkComp [(H, 4%Z); (O, 2%Z)] (Some (mass_sum NumQc T [(H, 4%Z); (O, 2%Z)]))).
+  { unfold c. rewrite E.
+    cbv beta iota zeta delta [step operand nth apply fst r_fam r_comp c_fmass c_cache c_ents set_nth fam_after].
+    rewrite Hm. reflexivity. }
+  rewrite Ec. cbn [c_ents c_cache]. split; [reflexivity|split; [reflexivity|]].
+  intros Hz. apply (f_equal Qcanon.this) in Hz. vm_compute in Hz. discriminate Hz.
+Qed.
+
+
+Print Assumptions step_inv. Print Assumptions mass_coherent. Print Assumptions mass_is_sum.
+Print Assumptions mass_perm. Print Assumptions mass_additive. Print Assumptions mass_linear.
+Print Assumptions C02_example. Print Assumptions C02_example_cache_filled.
